@@ -4,6 +4,7 @@ from .. import typegen as TG
 
 ID = "C06"
 LEAN_MODULE = "Ucfg.Props.C06"
+LEVEL_TEXT = 'Round-trip theorems per primitive kind (value -> setting -> same value); the lift to whole structs is PARTIAL and decided by the roundtrip correspondence over generated struct types; known finding D24.'
 CORRESPONDENCE = "Normalize.normStructInto + Unpack.unpack ~ ucfg.NewFrom(v) then (*Config).Unpack(&zero)"
 RULE = ("struct types from the type generator restricted to the supported kinds (no interface{}, no arrays as map values) with tags "
         "(rename, inline struct, ignore) x values of those types incl. zero values, extreme numbers (MinInt64, MaxUint64, +-Inf, NaN, "
